@@ -1,0 +1,71 @@
+//go:build verif
+
+// Machine-checked contracts for package ast. This file contains comments only;
+// it is read by /verif/bin/govc (build tag `verif`) and is invisible otherwise.
+package ast
+
+// ---------------------------------------------------------------------------
+// Query paging model: ghost qHasSkip/qSkip/qHasLimit/qLimit, indexed by the
+// query object.
+// ---------------------------------------------------------------------------
+
+//@ ghost qHasSkip : (Array Int Bool)
+//@ ghost qSkip : (Array Int Int)
+//@ ghost qHasLimit : (Array Int Bool)
+//@ ghost qLimit : (Array Int Int)
+
+//@ func (Query).GetSkip
+//@   pure
+//@   ensures (result != nil) == qHasSkip[self]
+//@   ensures result != nil ==> *result == qSkip[self]
+//@ func (Query).GetLimit
+//@   pure
+//@   ensures (result != nil) == qHasLimit[self]
+//@   ensures result != nil ==> *result == qLimit[self]
+//@ func (Query).SetSkip(v)
+//@   modifies qHasSkip[self], qSkip[self]
+//@   ensures qHasSkip[self] && qSkip[self] == v
+//@ func (Query).SetLimit(v)
+//@   modifies qHasLimit[self], qLimit[self]
+//@   ensures qHasLimit[self] && qLimit[self] == v
+
+// ---------------------------------------------------------------------------
+// Set-cursor model (C02, C14): every ast.SetCursor value c has a ghost
+// sequence curSeq[c] of curLen[c] byte strings and a ghost position curPos[c]
+// with 0 <= curPos[c] <= curLen[c]. The sequence never changes; only the
+// position does.
+// ---------------------------------------------------------------------------
+
+//@ ghost curSeq : (Array Int (Array Int Str))
+//@ ghost curLen : (Array Int Int)
+//@ ghost curPos : (Array Int Int)
+
+//@ func (SetCursor).IsValid
+//@   pure
+//@   ensures result == (curPos[self] < curLen[self])
+//@   ensures 0 <= curPos[self] && curPos[self] <= curLen[self] && curLen[self] < MaxInt64
+//@ func (SetCursor).Current
+//@   pure
+//@   requires[valid] curPos[self] < curLen[self]
+//@   ensures result != nil && str(result) == curSeq[self][curPos[self]]
+//@ func (SetCursor).Next
+//@   requires[valid] curPos[self] < curLen[self]
+//@   modifies curPos[self]
+//@   ensures curPos[self] == old(curPos[self]) + 1
+
+// ---------------------------------------------------------------------------
+// Filter evaluation as seen by scanners: EvalBool is a function of the node
+// and of the row the Symbols object currently stands on (ghost symRow).
+// ---------------------------------------------------------------------------
+
+//@ ghost symRow : (Array Int Str)
+//@ spec nodeSem(node Int, row Str) Bool
+
+//@ func (BoolNode).EvalBool
+//@   pure
+//@   ensures result == nodeSem(self, symRow[s])
+
+// A cursor provider hands out a fresh cursor standing on its first element (or nil).
+//@ functype SetCursorProvider(tx, forward)
+//@   pure
+//@   ensures result != nil ==> fresh(ref(result)) && curPos[result] == 0 && 0 <= curLen[result] && curLen[result] < MaxInt64
